@@ -1,6 +1,6 @@
 (* LoaderNames.v — lemmas about the typed-name functions of Model/Loader.v (map keys, case folding,
    splitting at "::" and at the last '/') and about the byte-string order used by Discover's sort. *)
-From Coq Require Import NArith Bool List Lia.
+From Coq Require Import Arith NArith Bool List Lia.
 From PcoreV Require Import Model.Base Model.Loader Model.LoaderSpec.
 Import ListNotations.
 
@@ -282,6 +282,24 @@ Qed.
 
 Lemma forallb_app_r {A} (f : A -> bool) a b : forallb f (a ++ b) = true -> forallb f b = true.
 Proof. rewrite forallb_app. intros H. apply andb_prop in H. tauto. Qed.
+
+(* `child` cannot answer nil after IsParent: the case merged into "not relative" in relative_to never occurs *)
+Lemma child_name_enough k : forall s, k < length (split_cc (to_lower s)) -> child_name k s <> None.
+Proof.
+  induction k as [|k IH]; intros s H; [discriminate|].
+  cbn [child_name]. pose proof (split_cc_aux_drop (to_lower s) []) as D. rewrite drop_seg_lower in D.
+  destruct (drop_seg s) as [s1|]; cbn [option_map] in D.
+  - destruct D as [x D]. apply IH. unfold split_cc at 1 in H. rewrite D in H. cbn [length] in H. lia.
+  - destruct D as [x D]. unfold split_cc in H. rewrite D in H. cbn [length] in H. lia.
+Qed.
+
+Theorem relative_to_total n p : is_parent p n = true -> relative_to n p <> None.
+Proof.
+  intros H. unfold relative_to. rewrite H. unfold is_parent in H. apply andb_prop in H. destruct H as [H _].
+  apply Nat.ltb_lt in H. unfold parts in H at 2.
+  pose proof (child_name_enough (length (parts p)) (tn_name n) H) as C.
+  destruct (child_name (length (parts p)) (tn_name n)); [discriminate|contradiction].
+Qed.
 
 (* a relative name of a well-formed name is well-formed and strictly shorter *)
 Lemma relative_to_wf n p c :
